@@ -54,8 +54,8 @@ Theorem ReadHeader_spec cs t fuel :
     /\ chunks_ok cs'.
 Proof.
   intros Hok Hb Hlen Hfuel. set (s := concat cs) in *.
-  destruct (ReadFull_cread cs t 32 fuel Hok) as (cs1 & HRF & Hc1 & Hok1); [lia|assumption|].
-  fold s in HRF, Hc1. unfold ReadHeader, fixedSize, spec_ReadHeader. rewrite HRF.
+  destruct (ReadFull_cread cs t 32 fuel) as (cs1 & HRF & Hc1 & Hok1 & Hl1); [lia|assumption|].
+  specialize (Hok1 Hok). fold s in HRF, Hc1. unfold ReadHeader, fixedSize, spec_ReadHeader. rewrite HRF.
   destruct (Z.ltb_spec (zlen s) 32) as [Hs|Hs].
   - do 4 eexists. split; [reflexivity|]. cbn [rh_view].
     change (Z.to_nat 32) with 32%nat in *.
@@ -76,16 +76,15 @@ Section Codec.
   (** ** Unmarshal over any chunking, any terminal condition, any bytes *)
   Theorem Unmarshal_spec cs t fuel :
     chunks_ok cs -> bytes_ok (concat cs) -> zlen (concat cs) < 2 ^ 63 ->
-    (length (concat cs) + 2 <= fuel)%nat ->
+    (length cs + length (concat cs) + 2 <= fuel)%nat ->
     exists n ver err m cs',
       Unmarshal dec cread grow fuel (cs, t) = Some (n, ver, err, m, (cs', t))
       /\ chunks_ok cs'
       /\ spec_Unmarshal dec EEOF (concat cs) t = (n, ver, err, m, concat cs').
   Proof.
     intros Hok Hb Hlen Hfuel. set (s := concat cs) in *.
-    pose proof (chunks_ok_length cs Hok) as Hcl. fold s in Hcl.
-    destruct (ReadFull_cread cs t 32 fuel Hok) as (cs1 & HRF & Hc1 & Hok1); [lia|lia|].
-    fold s in HRF, Hc1. unfold Unmarshal, ReadHeader, fixedSize, spec_Unmarshal. rewrite HRF.
+    destruct (ReadFull_cread cs t 32 fuel) as (cs1 & HRF & Hc1 & Hok1 & Hl1); [lia|lia|].
+    specialize (Hok1 Hok). fold s in HRF, Hc1. unfold Unmarshal, ReadHeader, fixedSize, spec_Unmarshal. rewrite HRF.
     change (Z.to_nat 32) with 32%nat in *.
     destruct (Z.ltb_spec (zlen s) 32) as [Hs|Hs].
     - (* short header *)
@@ -107,7 +106,7 @@ Section Codec.
       destruct (Z.geb_spec bs (2 ^ 63)) as [Hbig|Hsmall].
       { do 5 eexists. split; [reflexivity|]. split; [assumption|]. rewrite Hc1. reflexivity. }
       rewrite as_int64_small by lia.
-      destruct (ReadAll_limited_cread grow Hgrow t fuel cs1 bs Hok1) as (cs2 & n2 & HRA & Hc2 & Hok2).
+      destruct (ReadAll_limited_cread grow Hgrow t fuel cs1 bs Hok1) as (cs2 & n2 & HRA & Hc2 & Hok2 & Hl2).
       { rewrite Hc1. unfold rest. rewrite skipn_length. lia. }
       unfold creader in *. rewrite HRA. rewrite Hc1 in *. clear HRA.
       assert (Hrl : zlen rest = zlen s - 32).
